@@ -264,7 +264,7 @@ CLAIMED['C12'] = dict(
          'returned array, written matrix, new ancillaries, reuse of untouched sides, raise / no raise, and agreement of the matrix-level and '
          'digit-level descriptions of the kept columns. Oracle (all five functions): numpy on the N-D form, fibre-wise check of every file element.',
     design='5/C12',
-    note='Written back (theorem C12_written_back_coordinates, grid datasets in any storage order, at least one dimension left on either side): the '
+    note='Values matrices of rebuilt sides are modelled too (Usid/ReduceVals: entry = original reference value of the index at the same place; on a grid the rebuilt side reports the original unit values of the kept dimensions) and tied by correspondence (check12v). Written back (theorem C12_written_back_coordinates, grid datasets in any storage order, at least one dimension left on either side): the '
          'reduced ancillary matrices are again grid matrices (write_reduced_grid: matrix level = digit level, kept dimensions in the same relative '
          'order) and element (r,c) of the written matrix is the reduced value at the coordinates the new matrices carry (composition of the C01 '
          'exact-shape theorem, the fibre lemma and the C10 coordinate-map theorem). Partial: mean and std are floating point and are judged by the '
